@@ -756,3 +756,137 @@ func isEnclosing(outer, inner *ssa.Function) bool {
 	}
 	return false
 }
+
+// R-PAR-13 --------------------------------------------------------------------
+
+func init() {
+	Register(&Rule{ID: "R-PAR-13", Props: []string{"C12"}, Floor: 10,
+		Doc: "the number of workers only decides how the work is split: a value derived from Flags.CPU or GoroutineTaskManager.Number is used in lib/query only as the cpu argument of the task manager's constructor, as a loop bound or allocation length over the workers, in the test `1 < Number` that chooses between spawning and running inline, and by the flag plumbing (SET / SHOW) — never in another branch condition (choosing an algorithm, an operand order or an output order by the number of goroutines makes the rows or their order depend on --cpu)",
+		Controls: []string{"CtlBranchOnCPU"},
+		Run:      rulePar13})
+}
+
+func rulePar13(c *Ctx) {
+	isCPUSource := func(v ssa.Value) string {
+		u, ok := v.(*ssa.UnOp)
+		if !ok || u.Op != token.MUL {
+			return ""
+		}
+		fa, ok := u.X.(*ssa.FieldAddr)
+		if !ok {
+			return ""
+		}
+		switch core.FieldOwner(fa) {
+		case "lib/option.Flags.CPU":
+			return "Flags.CPU"
+		case "lib/query.GoroutineTaskManager.Number":
+			return "GoroutineTaskManager.Number"
+		}
+		return ""
+	}
+	n := 0
+	for _, fn := range c.P.FuncsIn(true, "lib/query") {
+		// the task manager's own methods compute the split
+		if recv := fn.Signature.Recv(); recv != nil && strings.Contains(recv.Type().String(), "GoroutineTaskManager") {
+			continue
+		}
+		if fn.Name() == "NewGoroutineTaskManager" || fn.Name() == "CalcMinimumRequired" {
+			continue
+		}
+		k := 0
+		for _, b := range fn.Blocks {
+			for _, in := range b.Instrs {
+				v, ok := in.(ssa.Value)
+				if !ok {
+					continue
+				}
+				src := isCPUSource(v)
+				if src == "" {
+					continue
+				}
+				k++
+				n++
+				c.Touch(fn)
+				key := c.KeyAt(fn, fmt.Sprintf("use #%d of %s", k, src))
+				bad := ""
+				seen := map[ssa.Value]bool{}
+				var walk func(x ssa.Value, depth int)
+				walk = func(x ssa.Value, depth int) {
+					if seen[x] || depth > 5 || x.Referrers() == nil || bad != "" {
+						return
+					}
+					seen[x] = true
+					for _, r := range *x.Referrers() {
+						switch y := r.(type) {
+						case *ssa.Convert:
+							walk(y, depth+1)
+						case *ssa.ChangeType:
+							walk(y, depth+1)
+						case *ssa.Phi:
+							walk(y, depth+1)
+						case *ssa.BinOp:
+							switch y.Op {
+							case token.LSS, token.GTR, token.LEQ, token.GEQ, token.EQL, token.NEQ:
+								other := y.X
+								if other == x {
+									other = y.Y
+								}
+								if k1, ok := core.ConstInt(other); ok && (k1 == 1 || k1 == 0) {
+									continue // spawn or run inline
+								}
+								if ph, ok := other.(*ssa.Phi); ok {
+									if _, _, _, _, isInd := core.Induction(ph); isInd {
+										continue // loop over the workers
+									}
+								}
+								if bo, ok := other.(*ssa.BinOp); ok {
+									if ph, ok := bo.X.(*ssa.Phi); ok {
+										if _, _, _, _, isInd := core.Induction(ph); isInd {
+											continue
+										}
+									}
+								}
+								// is the comparison a branch condition (or does it feed one)?
+								if feedsBranch(y, 0) {
+									bad = fmt.Sprintf("%s is compared with %s at %s and the result decides a branch", src, describeValue(c.P, other), c.Pos(y))
+								}
+							default:
+								walk(y, depth+1) // arithmetic on the count (Number+1 …)
+							}
+						}
+					}
+				}
+				walk(v, 0)
+				c.Check(bad == "", key, c.Pos(in), "used for the split only (constructor argument, loop bound, allocation length, spawn-or-inline test)", bad+": the code path — and with it the rows or their order — depends on the number of goroutines")
+			}
+		}
+	}
+	if n == 0 {
+		c.Unknown("CPU uses", "-", "cannot-analyse: no use of Flags.CPU / GoroutineTaskManager.Number in lib/query")
+	}
+}
+
+func feedsBranch(v ssa.Value, depth int) bool {
+	if depth > 4 || v.Referrers() == nil {
+		return false
+	}
+	for _, r := range *v.Referrers() {
+		switch y := r.(type) {
+		case *ssa.If:
+			return true
+		case *ssa.BinOp:
+			if feedsBranch(y, depth+1) {
+				return true
+			}
+		case *ssa.UnOp:
+			if feedsBranch(y, depth+1) {
+				return true
+			}
+		case *ssa.Phi:
+			if feedsBranch(y, depth+1) {
+				return true
+			}
+		}
+	}
+	return false
+}
